@@ -207,6 +207,9 @@ impl AsyncFileSystem for AsyncOverlayFS {
     async fn remove_dir(&self, path: &str) -> VfsResult<()> {
         // Ensure path exists
         self.read_path(path).await?;
+        if self.read_dir(path).await?.next().await.is_some() {
+            return Err(VfsErrorKind::Other("Directory to remove is not empty".into()).into());
+        }
         let write_path = self.write_path(path)?;
         if write_path.exists().await? {
             write_path.remove_dir().await?;
